@@ -166,6 +166,23 @@ def run(chk):
             buf = bytearray(b".")
             for j in present:
                 buf += strs[j] + b"."
+        if i % 10 == 9:
+            # aimed at `N of <set> in (range)`: N counts STRINGS with a match in the range, not matches: one string several times in the range,
+            # the others absent or outside
+            st = r.choice([[0, 2], [0, 1, 2], [1, 2]])
+            q = r.choice(["all", ("num", ("lit", 2)), ("num", ("lit", 3)), ("num", ("add", ("lit", 1), ("lit", 1)))])
+            t = r.choice([("ofin", q, st, ("lit", 0), ("lit", 12)), ("ofin", q, st, ("lit", 1), ("lit", 20))])
+            if r.chance(1, 3):
+                t = ("not", t)
+            trees, names = [t], ["r0"]
+            strs = [bytes(r.choice(b"abcxyz019") for _ in range(2)) for _ in range(condgen.NSTR)]
+            decl = " ".join('$%s = "%s"' % (condgen.sid(j), strs[j].decode()) for j in range(condgen.NSTR))
+            src = "rule r0 { strings: %s condition: %s }\n" % (decl, condgen.Printer(names).raw(t))
+            rep = r.choice(st)
+            buf = bytearray(b".") + (strs[rep] + b".") * r.range(2, 4) + b"." * 25
+            if r.chance(1, 2):
+                other = r.choice([j for j in range(condgen.NSTR) if j != rep])
+                buf += strs[other]
         if i % 10 == 7:
             # aimed at the required-strings analysis (a rule none of whose strings matched is not evaluated when the compiler decided
             # that it needs a string): quantifiers that are not constants and evaluate to 0 at scan time, on data without the strings
